@@ -71,6 +71,9 @@ pub struct GroupWorld {
 pub enum GOp {
     AddTmpl { g: usize, f: usize, old: bool },
     AddScript { g: usize, s: usize },
+    /// a stale stand-in for file f / script s that a later add or import must replace
+    AddStaleTmpl { g: usize, f: usize },
+    AddStaleScript { g: usize, s: usize },
     SetExtra { g: usize },
     SetInline { g: usize, e: usize },
     Import { into: usize, from: usize },
@@ -237,6 +240,12 @@ fn execute_in_thread(world: &GroupWorld, exec: &GExec) -> ExecResult {
             GOp::AddScript { g, s } => {
                 let (p, c) = &world.scripts[*s];
                 groups[*g].add_script(p, c);
+            }
+            GOp::AddStaleTmpl { g, f } => {
+                groups[*g].add_tmpl(&world.files[*f].path, "<view class=\"stale {{zz}}\">stale {{yy}}</view><template name=\"stale\"/>");
+            }
+            GOp::AddStaleScript { g, s } => {
+                groups[*g].add_script(&world.scripts[*s].0, "exports.stale = function(){ return 'stale' }");
             }
             GOp::SetExtra { g } => {
                 if let Some(x) = &world.extra_runtime {
@@ -727,11 +736,24 @@ fn gen_exec(r: &mut Rng, world: &GroupWorld, i: u64) -> GExec {
         let g = group_of(r);
         own[g].push(vec![GOp::SetExtra { g }]);
     }
-    fn build(g: usize, parent: &[usize], own: &mut Vec<Vec<Vec<GOp>>>, r: &mut Rng) -> Vec<GOp> {
+    fn build(g: usize, parent: &[usize], own: &mut Vec<Vec<Vec<GOp>>>, r: &mut Rng, overlap: bool) -> Vec<GOp> {
         let mut streams: Vec<Vec<GOp>> = std::mem::take(&mut own[g]);
         for c in 1..parent.len() {
             if parent[c] == g && c != g {
-                let mut s = build(c, parent, own, r);
+                let sub = build(c, parent, own, r, overlap);
+                let mut s = vec![];
+                if overlap {
+                    // the importing group already holds stale versions of some of the files the
+                    // imported group brings: importing must replace them, as adding directly would
+                    for o in &sub {
+                        match o {
+                            GOp::AddTmpl { f, old: false, .. } if r.chance(0.3) => s.push(GOp::AddStaleTmpl { g, f: *f }),
+                            GOp::AddScript { s: si, .. } if r.chance(0.3) => s.push(GOp::AddStaleScript { g, s: *si }),
+                            _ => {}
+                        }
+                    }
+                }
+                s.extend(sub);
                 s.push(GOp::Import { into: g, from: c });
                 streams.push(s);
             }
@@ -750,7 +772,8 @@ fn gen_exec(r: &mut Rng, world: &GroupWorld, i: u64) -> GExec {
         }
         out
     }
-    let ops = build(0, &parent, &mut own, r);
+    let use_overlap = use_partition && r.chance(0.5);
+    let ops = build(0, &parent, &mut own, r, use_overlap);
     let mut sink_plan = vec![];
     if use_sink {
         let n = r.range(1, 6);
@@ -803,6 +826,7 @@ pub fn count_exec_faults(world: &GroupWorld, exec: &GExec, stats: &mut Stats) {
             }
             GOp::Emit { .. } => stats.add("fault.interleaved_emit", 1),
             GOp::SetInline { .. } => stats.add("fault.inline_script_edit", 1),
+            GOp::AddStaleTmpl { .. } | GOp::AddStaleScript { .. } => stats.add("fault.import_over_stale", 1),
             _ => {}
         }
     }
@@ -926,6 +950,8 @@ pub fn exec_to_json(e: &GExec) -> Value {
         "ops": e.ops.iter().map(|o| match o {
             GOp::AddTmpl { g, f, old } => json!(["add_tmpl", g, f, old]),
             GOp::AddScript { g, s } => json!(["add_script", g, s]),
+            GOp::AddStaleTmpl { g, f } => json!(["add_stale_tmpl", g, f]),
+            GOp::AddStaleScript { g, s } => json!(["add_stale_script", g, s]),
             GOp::SetExtra { g } => json!(["set_extra", g]),
             GOp::SetInline { g, e } => json!(["set_inline", g, e]),
             GOp::Import { into, from } => json!(["import_group", into, from]),
@@ -946,6 +972,8 @@ pub fn exec_from_json(v: &Value) -> GExec {
         match o[0].as_str().unwrap_or("") {
             "add_tmpl" => ops.push(GOp::AddTmpl { g: u(&o[1]), f: u(&o[2]), old: o[3].as_bool().unwrap_or(false) }),
             "add_script" => ops.push(GOp::AddScript { g: u(&o[1]), s: u(&o[2]) }),
+            "add_stale_tmpl" => ops.push(GOp::AddStaleTmpl { g: u(&o[1]), f: u(&o[2]) }),
+            "add_stale_script" => ops.push(GOp::AddStaleScript { g: u(&o[1]), s: u(&o[2]) }),
             "set_extra" => ops.push(GOp::SetExtra { g: u(&o[1]) }),
             "set_inline" => ops.push(GOp::SetInline { g: u(&o[1]), e: u(&o[2]) }),
             "import_group" => ops.push(GOp::Import { into: u(&o[1]), from: u(&o[2]) }),
@@ -995,6 +1023,8 @@ fn remove_file(w: &GroupWorld, e: &GExec, f: usize) -> (GroupWorld, GExec) {
         .filter_map(|o| match o {
             GOp::AddTmpl { f: of, .. } if *of == f => None,
             GOp::AddTmpl { g, f: of, old } => Some(GOp::AddTmpl { g: *g, f: if *of > f { of - 1 } else { *of }, old: *old }),
+            GOp::AddStaleTmpl { f: of, .. } if *of == f => None,
+            GOp::AddStaleTmpl { g, f: of } => Some(GOp::AddStaleTmpl { g: *g, f: if *of > f { of - 1 } else { *of } }),
             GOp::SetInline { g, e } => edit_map[*e].map(|ne| GOp::SetInline { g: *g, e: ne }),
             o => Some(o.clone()),
         })
@@ -1052,6 +1082,8 @@ pub fn shrink_candidates(w: &GroupWorld, e: &GExec) -> Vec<(GroupWorld, GExec)> 
                 .filter_map(|o| match o {
                     GOp::AddScript { s: os, .. } if *os == s => None,
                     GOp::AddScript { g, s: os } => Some(GOp::AddScript { g: *g, s: if *os > s { os - 1 } else { *os } }),
+                    GOp::AddStaleScript { s: os, .. } if *os == s => None,
+                    GOp::AddStaleScript { g, s: os } => Some(GOp::AddStaleScript { g: *g, s: if *os > s { os - 1 } else { *os } }),
                     o => Some(o.clone()),
                 })
                 .collect();
@@ -1077,6 +1109,7 @@ pub fn shrink_candidates(w: &GroupWorld, e: &GExec) -> Vec<(GroupWorld, GExec)> 
         let droppable = match &e.ops[i] {
             GOp::Emit { .. } => true,
             GOp::AddTmpl { old: true, .. } => true,
+            GOp::AddStaleTmpl { .. } | GOp::AddStaleScript { .. } => true,
             GOp::SetInline { .. } => false,
             GOp::AddTmpl { f, old: false, .. } => e.ops.iter().filter(|o| matches!(o, GOp::AddTmpl { f: f2, old: false, .. } if f2 == f)).count() > 1,
             GOp::AddScript { s, .. } => e.ops.iter().filter(|o| matches!(o, GOp::AddScript { s: s2, .. } if s2 == s)).count() > 1,
